@@ -206,10 +206,18 @@ def run_lines(ctx, exe, lines, timeout):
         info[died] = ("timeout after %ds" % timeout) if r.timed_out else \
             (r.sanitizer or r.err[-600:] or "exit code %d" % r.rc)
         start = died + 1
+        if r.timed_out:
+            # one hang is a verdict; do not wait for every later case to hang as well
+            for k in range(start, len(lines)):
+                info[k] = SKIPPED
+            break
     for i in range(len(lines)):
         if results[i] is None and info[i] is None:
             info[i] = "no output for this case"
     return results, info
+
+
+SKIPPED = "skipped: not run after an earlier case of the same batch hung"
 
 
 def parse_tagged(line, tags):
@@ -236,7 +244,7 @@ def eval_k(ctx, exe1, mexe, cases, stats, reads="lower"):
     if not cases:
         return 0
     lines = [k_line_impl(c) for c in cases]
-    res, info = run_lines(ctx, exe1, lines, timeout=300)
+    res, info = run_lines(ctx, exe1, lines, timeout=60 + len(lines) // 10)
     # model: three variants + spec on the implementation's tables
     minp = []
     for c in cases:
@@ -252,6 +260,8 @@ def eval_k(ctx, exe1, mexe, cases, stats, reads="lower"):
         D = c["D"]
         malformed = c["gen"].startswith("malformed")
         m25 = mlines[NV * i]
+        if info[i] == SKIPPED:
+            continue
         if info[i] is not None:
             ctx.violation(c, "construct_%s eigenproblem: the routine crashed / hung on this input: %s"
                           % (c["method"], str(info[i])[:500]))
@@ -360,15 +370,20 @@ def k_spec_fails(ctx, exe1, mexe, c, reads="lower"):
 
 def shrink_k(ctx, exe1, mexe, c, reads="lower"):
     """fewer stored entries, fewer features (samples are kept: LLTSA needs N = 2^k for exactness)"""
+    import time
+    deadline = time.time() + 45
+
+    def fails(cc):
+        return time.time() < deadline and k_spec_fails(ctx, exe1, mexe, cc, reads)
     try:
-        W = vlib.shrink_list(c["W"], lambda w: k_spec_fails(ctx, exe1, mexe, dict(c, W=w), reads), max_steps=40)
+        W = vlib.shrink_list(c["W"], lambda w: fails(dict(c, W=w)), max_steps=40)
         c2 = dict(c, W=W)
-        if not k_spec_fails(ctx, exe1, mexe, c2, reads):
+        if not fails(c2):
             c2 = c
         f = c2["D"] - 1
         while f >= 0 and c2["D"] > 1:
             c3 = dict(c2, D=c2["D"] - 1, X=[r for i, r in enumerate(c2["X"]) if i != f])
-            if k_spec_fails(ctx, exe1, mexe, c3, reads):
+            if fails(c3):
                 c2 = c3
             f -= 1
         c2["gen"] = c["gen"] + "+shrunk"
@@ -418,13 +433,15 @@ def eval_j(ctx, exe1, mexe, cases, stats):
                                        " ".join(hexf(v) for r in P for v in r)))
         ml.append("J %d %d %d %s %s" % (N, D, d, " ".join(frac_token(v) for r in X for v in r),
                                        " ".join(frac_token(v) for r in P for v in r)))
-    res, info = run_lines(ctx, exe1, il, timeout=300)
+    res, info = run_lines(ctx, exe1, il, timeout=60 + len(il) // 10)
     mr = ctx.run(mexe, "\n".join(ml) + "\n", timeout=300)
     mo = mr.out.splitlines()
     if mr.rc != 0 or len(mo) != len(cases):
         raise vlib.BuildError("model driver failed on the J stream: rc=%s %s" % (mr.rc, mr.err[-300:]))
     for c, line, inf, m in zip(cases, res, info, mo):
         N, D, d = c["N"], c["D"], c["d"]
+        if inf == SKIPPED:
+            continue
         if inf is not None:
             ctx.violation(c, "compute_mean / project crashed or hung: " + str(inf)[:400])
             continue
@@ -527,10 +544,12 @@ def contract_residual(A, B, V, lam):
 def eval_g(ctx, exe1, cases, stats):
     if not cases:
         return 0, None
-    res, info = run_lines(ctx, exe1, [g_line(c) for c in cases], timeout=300)
+    res, info = run_lines(ctx, exe1, [g_line(c) for c in cases], timeout=60 + len(cases) // 5)
     votes = {"lower": 0, "upper": 0, "neither": 0}
     for c, line, inf in zip(cases, res, info):
         D, d = c["D"], c["d"]
+        if inf == SKIPPED:
+            continue
         if inf is not None:
             ctx.violation(c, "generalized_eigendecomposition crashed / hung on a symmetric positive definite "
                              "pencil: " + str(inf)[:500])
@@ -672,10 +691,12 @@ def eval_e(ctx, exe1, exe2, cases, stats, rng, rotate_every=2):
             rots[i] = R
             lines.append(e_line(c, [[hexf(v) for v in row] for row in XR]))
             owner.append((i, True))
-    res, info = run_lines(ctx, exe2, lines, timeout=600)
+    res, info = run_lines(ctx, exe2, lines, timeout=90 + len(lines))
     base, rot = {}, {}
     for (i, isrot), line, inf in zip(owner, res, info):
         c = cases[i]
+        if inf == SKIPPED:
+            continue
         if inf is not None:
             ctx.violation(c, "tapkee::embed(%s) crashed / hung%s: %s"
                           % (c["method"], " on the rotated data" if isrot else "", str(inf)[:500]))
@@ -731,7 +752,7 @@ def eval_e(ctx, exe1, exe2, cases, stats, rng, rotate_every=2):
                                                 " ".join(p["Mtok"]), bkind, " ".join(dv),
                                                 " ".join(hexf(x) for x in p["P"])))
         ridx.append(i)
-    rres, rinfo = run_lines(ctx, exe1, rl, timeout=600)
+    rres, rinfo = run_lines(ctx, exe1, rl, timeout=90 + len(rl))
     for i, line, inf in zip(ridx, rres, rinfo):
         c = cases[i]
         p = base[i]
